@@ -21,7 +21,7 @@ CHECKS = {
     design="5/C04"),
  "C05": dict(
     text="TLC checks Python's slice.indices characterisation per axis (MC_Slice.tla: selected positions = range(start',stop',step), defaults, negative bounds) on every (n,start,stop,step) of the scope; TLC exports the per-axis and a multi-axis family, the driver runs them under every slice encoding (packed, pairs, variadic, list-of-either, array<int,3>) and TraceOps.tla decides shape and elements; seeded multi-axis specifications likewise.",
-    note="Trusted: TLC, Slice.tla, drv_slice.cpp (type-menu dispatch of None-ness). Two input classes are known findings; two defects were repaired by fix: commits.",
+    note="Trusted: TLC, Slice.tla, drv_slice.cpp (type-menu dispatch of None-ness). Extents up to 2^31-9 are exercised at the index-math level (op slice_index, BIG scope of MC_Slice). Two input classes are known findings; three defects were repaired by fix: commits.",
     technique="TLA+ reference semantics + TLC law checking per axis; TLC-generated case tables replayed; trace validation by TLC",
     design="5/C05"),
  "C06": dict(
@@ -31,7 +31,7 @@ CHECKS = {
     design="5/C06"),
  "C07": dict(
     text="TLC checks the laws of element-wise application (result shape = broadcast shape, operand order visible through the non-commutative recording operation mix, commutative ops, outer indexing) on all pairs of shapes of the scope; the recording operation is driven through the real ufunc machinery on every pair of shapes exported by TLC (array and scalar operands, outer), every integer-computable named ufunc on wiring-revealing shape pairs with in-domain data, and TraceOps.tla decides shape, every element and the result element class.",
-    note="Trusted: TLC, Ufunc.tla, drv_ufunc.cpp. Transcendental/float-only ufuncs are not interpreted by TLC; their shared wiring is covered by the recording operation, their scalar functors are not checked.",
+    note="Trusted: TLC, Ufunc.tla, drv_ufunc.cpp. Ternary where runs through drv_select with negative / zero / fractional conditions. Transcendental/float-only ufuncs are not interpreted by TLC; their shared wiring is covered by the recording operation, their scalar functors are not checked.",
     technique="TLA+ reference semantics with a recording (non-commutative) operation; TLC law checking; trace validation of real ufunc results by TLC",
     design="5/C07"),
  "C08": dict(
@@ -51,7 +51,7 @@ CHECKS = {
     design="5/C19"),
  "C20": dict(
     text="NdArray.tla models an array object and a copy of it under resize / element write / copy / assign (both directions) with the kind described by what it may hold (dimension rule, element-count rule, constant shape, clipped bounds); TLC checks consistency, 'a refused resize changes nothing' and 'a write touches one element of one object' and exports one history per explored transition; the driver replays them on 12 ndarray_t shape x buffer kinds x both layouts and TraceNdArray.tla validates return value, shape, dim, size, every element by logical index and buffer-is-a-permutation after every action; seeded histories likewise.",
-    note="Trusted: TLC, NdArray.tla, drv_ndarray.cpp. Legacy classes, cast and mutable views are not yet driven. One configuration (clipped shape, column-major) is a known finding; the resize defect was repaired by a fix: commit.",
+    note="Trusted: TLC, NdArray.tla, drv_ndarray.cpp. The machine runs over 12 ndarray_t kinds x 2 layouts and the legacy fixed/hybrid/dynamic classes with element-type and kind casts as observation actions; mutable views (flatten/reshape/slice/ref) are validated by write-through position events against the reference views (Denote mutable_write). Casts to the 15 kind tags are in the C09 kinds matrix. One configuration (clipped shape, column-major) is a known finding; ndarray_t::resize and mutable_slice defects were repaired by fix: commits.",
     technique="TLA+ state machine; TLC exhaustive exploration + transition-tour export; replay on real objects; trace validation by TLC",
     design="5/C20"),
  "C18": dict(
@@ -96,7 +96,7 @@ CHECKS = {
     design="5/C11"),
  "C09": dict(
     text="No operator of the reference specification mentions a container kind; the same values are executed under every container / static-knowledge kind (compile-time constant tuples, clipped integers, std::array, raw arrays, nmtools/utl static_vector, std::vector, utl::vector, utl::array, run-time tuples, mixed pairs; raw, nested, fixed, hybrid, dynamic and ndarray_t arrays; compile-time and run-time axis/shape arguments) in three builds (g++ with assertions, g++ -O2 -DNDEBUG, clang++) and TLC validates every result against the one reference (a compile-time rejection counts as 'reports failure'), which proves pairwise agreement and agreement with the compile-time evaluation; the addressing and broadcasting models are model-checked as part of the run.",
-    note="Trusted: TLC, Denote, drv_config.cpp (macro-instantiated kinds over a fixed value set). The run-time kinds additionally run the complete tables of C01, C05, C06, C11, C19, C20. The NMTOOLS_DISABLE_STL build is attempted in the thorough tier only.",
+    note="Trusted: TLC, Denote, drv_config.cpp (macro-instantiated kinds over a fixed value set), drv_kinds.cpp (kinds matrix: 20 array kinds incl. the 15 ndarray kind tags x 34 view events x compile-time shapes). The run-time kinds additionally run the complete tables of C01, C05, C06, C11, C19, C20. The NMTOOLS_DISABLE_STL build is attempted in the thorough tier only.",
     technique="single TLA+ reference semantics; trace validation by TLC of the same cases under every configuration",
     design="5/C09"),
  "C02": dict(
